@@ -1,5 +1,6 @@
-import LoraVerif.Props.TieA.MacTop
+import LoraVerif.Props.TieA.MacTopC
 import LoraVerif.Props.TieA.Rx2Complete
+import LoraVerif.Gen.OtaaFn
 /-!
 # Tie A: `Mac::rx2_complete` with the session operation INSTANTIATED by the regenerated `Session::rx2_complete`
 (builder C; discharges the hypothesis `Sim` of `C04.tieA_mac_rx2_complete_partial` on the session side)
@@ -10,8 +11,8 @@ of `Props/TieA/StateBridge.lean` (`sessOf` / `cfgOf`: generated → model; the g
 `sessG` of the carrier, the fields the method cannot touch are carried around it).  For every record of operations
 whose `session_rx2_complete` is `genRx2`, the regenerated `Mac::rx2_complete` equals the model's `macRx2Complete` on
 every state whose session counters fit `u32` — no simulation hypothesis on the session: the equation `Sim` asked for is
-the theorem `genRx2_sim`, from `TieA.tieA_rx2_complete`.  What stays an equation on `ops`: `Otaa::rx2_complete`
-(a one-line method that is not regenerated by any unit) answers `NoJoinAccept` and keeps the join state.
+the theorem `genRx2_sim`, from `TieA.tieA_rx2_complete`.  `Otaa::rx2_complete` is regenerated too (`Gen.OtaaFn`, added by
+builder C): `genOtaaRx2`, with `genOtaaRx2_sim`.  `C04.tieA_mac_rx2_complete` has no equation left on the operations.
 -/
 set_option linter.unusedSimpArgs false
 set_option linter.unusedVariables false
@@ -106,6 +107,22 @@ theorem rx2_complete_gen (ops : GOps) (hs : ops.session_rx2_complete = genRx2)
       obtain ⟨h1, h2, h3⟩ := hsim
       simp [h1, h2, h3, macM, stateM]
 
+/-- `Response` as `Gen.OtaaFn` regenerates it -/
+def respTO : Gen.OtaaFn.Response → Gen.MacTopFn.Response
+  | .NoAck => .NoAck | .SessionExpired => .SessionExpired | .DownlinkReceived n => .DownlinkReceived n
+  | .NoJoinAccept => .NoJoinAccept | .JoinSuccess => .JoinSuccess | .NoUpdate => .NoUpdate
+  | .RxComplete => .RxComplete | .LinkCheckReq => .LinkCheckReq
+
+/-- the operation of the dispatch built from the regenerated `Otaa::rx2_complete`: the model's join state is the
+DevNonce of the pending request; the credentials, which the method does not read, are a placeholder -/
+def genOtaaRx2 (o : OtaaState) : Gen.MacTopFn.Response × OtaaState :=
+  let out := Gen.OtaaFn.Otaa.rx2_complete ⟨⟨(o.devNonce : Int)⟩, ⟨⟨⟨0⟩⟩⟩⟩
+  (respTO out.1, { devNonce := out.2.dev_nonce.value.toNat })
+
+/-- the equation `Sim.otaa_rx2_complete` asks for, as a THEOREM about the regenerated method -/
+theorem genOtaaRx2_sim (o : OtaaState) : genOtaaRx2 o = (.NoJoinAccept, o) := by
+  simp [genOtaaRx2, Gen.OtaaFn.Otaa.rx2_complete, respTO]
+
 end TieA.MacTop
 
 namespace C04
@@ -113,14 +130,14 @@ open Model TieA.MacTop
 
 /-- **Tie A.**  `Mac::rx2_complete` = the model's `macRx2Complete`, the session's method being the REGENERATED
 `Session::rx2_complete` (`Gen.SessionFn`, through `genRx2`): for every state whose session counters fit `u32` — no
-simulation hypothesis about the session.  (`Otaa::rx2_complete`, not regenerated by any unit, is the one equation left
-on `ops`.) -/
+simulation hypothesis: the join state's method is the REGENERATED `Otaa::rx2_complete` (`Gen.OtaaFn`, through
+`genOtaaRx2`) as well. -/
 theorem tieA_mac_rx2_complete (ops : GOps) (hs : ops.session_rx2_complete = genRx2)
-    (ho : ∀ o, ops.otaa_rx2_complete o = (.NoJoinAccept, o)) (g : GMac)
+    (ho : ops.otaa_rx2_complete = genOtaaRx2) (g : GMac)
     (hw : ∀ s, g.state = .Joined s → SessFits s) :
     (Gen.MacTopFn.Mac.rx2_complete ops g).map (fun (r, g') => (r, macM g'))
       = some (let (r, m') := macRx2Complete (macM g); (respG r, m')) :=
-  rx2_complete_gen ops hs ho g hw
+  rx2_complete_gen ops hs (fun o => by rw [ho]; exact genOtaaRx2_sim o) g hw
 
 end C04
 
@@ -134,7 +151,11 @@ def s95 : Model.Session := { Session.new 1 2 3 with fcntUp := 7, adrAckCnt := 95
 example : (genRx2 s95 cfg0 (Model.RegionState.init .EU868)).map (fun x => (x.1, x.2.1.fcntUp, x.2.1.adrAckCnt, x.2.2.data_rate))
     = some (.RxComplete, 8, 96, ._4) := by decide
 example : SessFits s95 := by unfold SessFits; decide
+/-- a record with both regenerated operations: a joining device whose windows passed answers `NoJoinAccept` -/
+def opsG : GOps := { Example.ops0 with session_rx2_complete := genRx2, otaa_rx2_complete := genOtaaRx2 }
+example : (Gen.MacTopFn.Mac.rx2_complete opsG { Example.g0 with state := .Otaa ⟨5⟩ }).map (·.1) = some .NoJoinAccept := rfl
 end TieA.MacTop.ExampleGen
 
 #print axioms C04.tieA_mac_rx2_complete
 #print axioms TieA.MacTop.genRx2_sim
+#print axioms TieA.MacTop.genOtaaRx2_sim
